@@ -50,19 +50,19 @@ Theorem C02_partial_noroom k st :
   forall t : target, EngP2.best node assignment st <> None /\ (score_of courses parts (t_a t) <= EngP2.bscore node assignment st)%Z.
 Proof.
   intros R Hk Hall t.
-  refine (EngP2.engine_complete node assignment f root smin smax target value covers _ _ _ _ _ Hnopanic k st R Hk Hall t).
+  refine (EngP2.engine_complete node assignment f root smin smax target value covers (fun _ => True) I (fun _ _ _ _ _ _ _ => I) _ _ _ _ _ (fun nd _ => Hnopanic nd) k st R Hk Hall t).
   - (* root covers everything *)
     intros t0. constructor; cbn; auto; [intros c H; discriminate|intros c []|constructor].
   - (* "no solution" nodes cover nothing *)
-    intros nd t0 Hf Hcov. unfold f in Hf.
+    intros nd t0 _ Hf Hcov. unfold f in Hf.
     pose proof (covered_node_bound courses parts no_rooms the_pick Hinstr_rng Hpairs nd (t_K t0) (t_a t0) (t_sol t0) Hcov no_rooms_val) as B.
     destruct (run courses parts no_rooms the_pick nd) as [[| |]| |]; try discriminate; exact B.
   - (* feasible nodes dominate what they cover *)
-    intros nd x s t0 Hf Hcov. unfold f in Hf.
+    intros nd x s t0 _ Hf Hcov. unfold f in Hf.
     pose proof (covered_node_bound courses parts no_rooms the_pick Hinstr_rng Hpairs nd (t_K t0) (t_a t0) (t_sol t0) Hcov no_rooms_val) as B.
     destruct (run courses parts no_rooms the_pick nd) as [[| |]| |]; try discriminate. inversion Hf; subst. exact B.
   - (* branching nodes dominate and hand on *)
-    intros nd cs s t0 Hf Hcov. unfold f in Hf.
+    intros nd cs s t0 _ Hf Hcov. unfold f in Hf.
     pose proof (covered_node_bound courses parts no_rooms the_pick Hinstr_rng Hpairs nd (t_K t0) (t_a t0) (t_sol t0) Hcov no_rooms_val) as B.
     destruct (run courses parts no_rooms the_pick nd) as [[|cs' s'|]| |] eqn:Er; try discriminate. inversion Hf; subst. split; [exact B|].
     apply (branch_covers courses parts pick_wrong Hone Hminmax maxpen Hpen Hmaxpen nd (t_K t0) (t_a t0) (t_sol t0) (t_fix t0) Hcov cs s Er).
